@@ -13,7 +13,7 @@ Local Open Scope string_scope.
 Theorem C03_wf_sound : forall ext d, wf_design ext d = true -> WF ext d.
 Proof. exact wf_design_sound. Qed.
 
-(* a well-formed design (no black boxes) in the fragment VSem supports (no memories, no negedge, no parameters)
+(* a well-formed design (no black boxes) in the fragment VSem supports (no negedge, no parameters; memories included)
    elaborates: flattening of EVERY module as top succeeds, for every fuel >= (|d|+1) * (max items per module + 1) *)
 Theorem C03_elab_total : forall d, WF [] d -> vsem_fragment d ->
   forall m, In m d -> forall fuel, (elab_fuel d <= fuel)%nat -> exists f, elaborate d fuel (m_name m) = inr f.
@@ -47,6 +47,12 @@ Example C03_example_fragment : vsem_fragment ex_design.
 Proof. exact ex_example_fragment. Qed.
 Example C03_example_elaborates : exists f, elaborate ex_design (elab_fuel ex_design) "Top" = inr f.
 Proof. exact ex_example_elaborates. Qed.
+Example C03_example_memory_accepted : wf_design [] ex_mem_design = true.
+Proof. exact ex_mem_accepted. Qed.
+Example C03_example_memory_fragment : vsem_fragment ex_mem_design.
+Proof. exact ex_mem_fragment. Qed.
+Example C03_example_memory_elaborates : exists f, elaborate ex_mem_design (elab_fuel ex_mem_design) "Mem" = inr f.
+Proof. exact ex_mem_elaborates. Qed.
 Example C03_rejects_scalar_select :
   wf_report [] (one_module [pin DIn 1 "a"; pin DOut 1 "r"] [IAssign (LId "r") (EBit "a" (ENum 0))]) = [("scalar_select", "M", "a")].
 Proof. exact ex_rejects_scalar_select. Qed.
